@@ -15,7 +15,7 @@ import time
 from . import core
 
 HEADER = """From Coq Require Import List ZArith NArith Floats. Import ListNotations.
-Require Import Clarabel.Base.Ops Clarabel.Base.Dyadic Clarabel.Term.Eval Clarabel.Term.Model Clarabel.Term.Check.
+Require Import Clarabel.Base.Ops Clarabel.Base.Dyadic Clarabel.Term.Eval Clarabel.Term.Model Clarabel.Term.Check Clarabel.Term.Cover.
 Open Scope float_scope."""
 
 DIGIT = {"C01": 0, "C02": 1, "C03": 2}
@@ -27,6 +27,25 @@ PART_NAMES = {
 }
 STATUS_C01 = ("Solved",)
 STATUS_C02 = ("PrimalInfeasible", "DualInfeasible")
+
+
+BRANCH_NAMES = {}
+for _b, _ph in ((0, "full"), (20, "almost")):
+    for _k, _n in enumerate(["solved via gap_abs", "solved via gap_rel", "not solved: ktratio > 1", "not solved: both gap tests fail",
+                             "not solved: res_primal >= tol", "not solved: res_dual >= tol", "infeasibility gate closed",
+                             "primal infeasible", "dual infeasible", "gate open, neither", "pinf fails on dot_bz",
+                             "pinf fails on res_primal_inf", "dinf fails on dot_qx", "dinf fails on res_dual_inf"]):
+        BRANCH_NAMES[_b + _k] = "check_convergence_%s: %s" % (_ph, _n)
+for _k, _n in enumerate(["poor-progress skipped: status already set", "poor-progress skipped: iter <= 1", "poor-progress skipped: no residual increase",
+                         "poor-progress block entered", "InsufficientProgress: ktratio < 100 eps and prev gap_abs < tol",
+                         "InsufficientProgress: ktratio < 100 eps and prev gap_rel < tol", "ktratio < 100 eps but previous gaps above tol",
+                         "ktratio >= 100 eps", "divergence test skipped: ktratio >= 1", "InsufficientProgress: dual residual diverged",
+                         "InsufficientProgress: primal residual diverged", "divergence test: neither",
+                         "limits skipped: status already set", "MaxIterations", "MaxTime", "no limit hit"]):
+    BRANCH_NAMES[40 + _k] = "check_termination: " + _n
+for _k, _n in enumerate(["status not eligible (untouched)", "almost check from NumericalError", "almost check from InsufficientProgress",
+                         "almost check from MaxIterations", "almost check from MaxTime"]):
+    BRANCH_NAMES[60 + _k] = "post_process: " + _n
 
 
 def _sha(*chunks):
@@ -66,7 +85,7 @@ def tree_key(chk, replay):
     src = _file_hash(glob.glob(os.path.join(core.HARNESS, "src", "*.rs")) + glob.glob(os.path.join(core.HARNESS, "src", "bin", "term.rs"))
                      + [os.path.join(core.HARNESS, "Cargo.toml")]
                      + glob.glob(os.path.join(core.COQ, "theories", "Base", "*.v"))
-                     + [os.path.join(core.COQ, "theories", "Term", f) for f in ("Eval.v", "Model.v", "Spec.v", "Check.v")]
+                     + [os.path.join(core.COQ, "theories", "Term", f) for f in ("Eval.v", "Model.v", "Spec.v", "Check.v", "Cover.v")]
                      + [os.path.abspath(__file__)])
     rh = _file_hash([replay]) if replay else _file_hash(corpus_files())
     return _sha(head.strip(), diff, stat, uh, src, chk.seed, chk.tier, rh)
@@ -84,7 +103,7 @@ def get_run(chk, replay):
             try:
                 d = json.load(open(cfile))
                 chk.log("shared run reused from cache %s (made by %s)" % (key[:10], d.get("made_by")))
-                return d["recs"], {int(k): v for k, v in d["codes"].items()}, d["errors"], {"cached": True, "key": key, "harness_s": d.get("harness_s"), "coq_s": d.get("coq_s")}
+                return d["recs"], {int(k): v for k, v in d["codes"].items()}, d["errors"], {"cached": True, "key": key, "harness_s": d.get("harness_s"), "coq_s": d.get("coq_s"), "hist": d.get("hist", [])}
             except Exception:
                 pass
         args = ["--seed", str(chk.seed), "--tier", chk.tier]
@@ -106,20 +125,35 @@ def get_run(chk, replay):
         for e in errs:
             errors.append("a cases shard failed to evaluate: " + e["output"][-600:])
         codes = {c["id"]: code for c, code in bad}
+        # branch coverage of the decision model: histogram of the branch ids every case drives it through
+        t0 = time.time()
+        covs = [c["input"]["cov"] for c in cases if c.get("input", {}).get("cov")]
+        hist = []
+        if covs:
+            import re
+            val = chk.coq_show(HEADER, ["cov_hist [" + ";\n".join(covs) + "]"], timeout=900)[0]
+            hist = [int(x) for x in re.findall(r"(\d+)%N", val)]
+            if len(hist) != 70:
+                errors.append("branch-coverage histogram failed to evaluate: " + val[-300:])
+                hist = []
+        chk.log("branch coverage of %d cases: %.1fs" % (len(covs), time.time() - t0))
         # cases are stored without the (large) coq expression of agreeing cases
         slim = []
         for r in recs:
             if "coq" in r and r["id"] not in codes:
                 r = dict(r)
                 r["coq"] = ""
+                if isinstance(r.get("input"), dict) and r["input"].get("cov"):
+                    r["input"] = dict(r["input"])
+                    r["input"]["cov"] = "1"
             slim.append(r)
         if not errors:
-            json.dump({"recs": slim, "codes": codes, "errors": errors, "made_by": chk.pid, "harness_s": th, "coq_s": tc}, open(cfile, "w"))
+            json.dump({"recs": slim, "codes": codes, "errors": errors, "made_by": chk.pid, "harness_s": th, "coq_s": tc, "hist": hist}, open(cfile, "w"))
             # keep the cache small
             olds = sorted(glob.glob(os.path.join(cdir, "*.json")), key=os.path.getmtime)
             for o in olds[:-6]:
                 os.remove(o)
-        return slim, codes, errors, {"cached": False, "key": key, "harness_s": th, "coq_s": tc}
+        return slim, codes, errors, {"cached": False, "key": key, "harness_s": th, "coq_s": tc, "hist": hist}
 
 
 def digits(code):
@@ -243,7 +277,7 @@ def run_property(chk, spec, replay=None):
         chk.notes.append("%d solver runs panicked or hung (subject of C04; recorded, not judged here): %s" % (
             len(abnormal), "; ".join(a["problem"].get("label", "?") for a in abnormal[:3])))
     if counts["Unchecked"]:
-        chk.notes.append("%d relevant runs contain a cone outside the exact fragment (power cone whose exponent is not a short dyadic): membership of that cone not certified" % counts["Unchecked"])
+        chk.notes.append("%d relevant runs contain a cone outside the exact fragment (generalised power cone whose exponents are not short dyadics): membership of that cone not certified" % counts["Unchecked"])
     solves = [c for c in rel if c.get("op") != "synth"]
     nontriv = {core.input_hash({"op": "solve", "input": c["input"]["problem"]}) for c in solves if c["input"]["size"] >= 2}
     nontriv |= {core.input_hash({"op": "synth", "input": c["input"]["synth"]}) for c in rel if c.get("op") == "synth"}
@@ -253,5 +287,12 @@ def run_property(chk, spec, replay=None):
     extra = {"input_distribution": stats[0]["stats"] if stats else {}, "solver_runs": len(cases), "relevant_runs": len(rel),
              "verdicts": counts, "shared_run": rinfo, "traces_validated_against_impl": len(rel),
              "correspondence_cases": len(rel), "correspondence_disagreements": len(fails) + len(synth_bad)}
+    hist = rinfo.get("hist") or []
+    if hist:
+        extra["model_branch_hits"] = {BRANCH_NAMES[k]: hist[k] for k in sorted(BRANCH_NAMES)}
+        unreached = [BRANCH_NAMES[k] for k in sorted(BRANCH_NAMES) if hist[k] == 0]
+        extra["model_branches_unreached"] = unreached
+        if unreached:
+            chk.notes.append("decision-model branches not reached by any correspondence case: " + "; ".join(unreached))
     extra.update(spec.get("extra", {}))
     return chk.finish(spec["level"], samples, len(rel), len(nontriv), spec["rule"], spec.get("explanation", ""), extra)
